@@ -61,10 +61,13 @@ def funcNames : Body → List Name
   | .op _ rest => funcNames rest
   | .child k name _ _ rest => (if k == .func then [name] else []) ++ funcNames rest
 
-partial def renderStmts (d : Nat) (b : Body) : List String :=
+partial def renderStmts (d : Nat) (b : Body) (style : Nat := 0) : List String :=
   let rec go : Body → List String
     | .nil => []
-    | .op (.bind n v) rest => (indent d ++ n ++ " = " ++ toString v) :: go rest
+    | .op (.bind n v) rest =>
+      -- surface form of a binding occurrence (`Name` in Store context): assignment or `for` target
+      (if style == 1 then indent d ++ "for " ++ n ++ " in (" ++ toString v ++ ",): pass"
+       else indent d ++ n ++ " = " ++ toString v) :: go rest
     | .op (.use n) rest => (indent d ++ "p(" ++ n ++ ")") :: go rest
     | .op (.glob n) rest => (indent d ++ "global " ++ n) :: go rest
     | .op (.nonloc n) rest => (indent d ++ "nonlocal " ++ n) :: go rest
@@ -78,11 +81,11 @@ partial def renderStmts (d : Nat) (b : Body) : List String :=
   go b ++ (funcNames b).map (fun f => indent d ++ f ++ "()")
 where
   block (body : Body) : List String :=
-    let ls := renderStmts (d + 1) body
+    let ls := renderStmts (d + 1) body style
     if ls.isEmpty then [indent (d + 1) ++ "pass"] else ls
 
-def render (b : Body) : String :=
-  let ls := renderStmts 0 b
+def render (b : Body) (style : Nat := 0) : String :=
+  let ls := renderStmts 0 b style
   "\\n".intercalate (if ls.isEmpty then ["pass"] else ls)
 
 /-! ### canonical dumps (must agree with harness/c03.go) -/
@@ -153,9 +156,9 @@ def maxKids : Body → Nat
   | .op _ rest => maxKids rest
   | .child k n ps body rest => max (max (maxKids body) (kidCount (.child k n ps body rest))) (maxKids rest)
 
-def mkCase (b : Body) (extraTags : List String := []) : Case :=
+def mkCase (b : Body) (extraTags : List String := []) (style : Nat := 0) : Case :=
   let U := namesOf b
-  let src := render b
+  let src := render b style
   let m := newSymTable Order.id b
   let (mV, mR) := match m with
     | .error _ => ("E:SyntaxError", "-")
@@ -391,6 +394,101 @@ def genFamilies (x : Name) (pars : List ParF) (alpha : List KidF) (n : Nat) (tag
         (t.foldr (fun (a : KidF) (acc : Body × Nat) => (a x acc.2 acc.1, acc.2 - 1)) (rest, t.length + 1)).1
       emit (mkCase (par x kids) [tag])
 
+
+/-! ### outer-declaration chains (round 3): a chain of nested blocks of depth ≤ 4 in which every level draws its
+operations on the one name independently from the level alphabet (nothing / bind / `global` / `global`+bind /
+`nonlocal` / use / parameter / bind+del / declaration AFTER the nested block …), the innermost block is a reader,
+and ONE extra sibling scope (a function or class that declares `global x`, binds x, or only reads it) stands
+before or after the chain's block at any one level (module level included: `AddDef` marks the MODULE symbol
+DefGlobal for a `global x` anywhere below).  The resolution of the reader must depend on its chain only. -/
+
+structure Lv where
+  kind : Kind
+  ps : Name → List Param := fun _ => []
+  pre : List (Name → Nat → NOp) := []
+  post : List (Name → Nat → NOp) := []
+
+def Lv.isExpr (l : Lv) : Bool := isExprKind l.kind
+
+/-- the level alphabet (statement context) -/
+def lvStmt (level : Nat) : List Lv :=
+  [ { kind := .func }, { kind := .func, pre := [oBind] }, { kind := .func, pre := [oGlob] },
+    { kind := .func, pre := [oGlob, oBind] }, { kind := .func, pre := [oNonl] }, { kind := .func, pre := [oUse] },
+    { kind := .func, ps := fun x => [{ name := x, val := 90 }] }, { kind := .func, post := [oBind] },
+    { kind := .cls }, { kind := .cls, pre := [oBind] }, { kind := .cls, pre := [oGlob] },
+    { kind := .lam, ps := fun x => [{ name := x, val := 91 }] }, { kind := .comp, ps := fun x => [{ name := x, val := 71 }] } ] ++
+  (if level ≥ 2 then
+    [ { kind := .func, pre := [oBind], post := [oDel] }, { kind := .func, pre := [oNonl, oBind] },
+      { kind := .func, ps := fun x => [{ name := x, kind := .star }] }, { kind := .func, ps := fun x => [{ name := "a", dflt := some x }] },
+      { kind := .cls, pre := [oGlob, oBind] }, { kind := .cls, pre := [oNonl] }, { kind := .lam }, { kind := .comp, ps := compT },
+      { kind := .func, pre := [oBind, oDel] }, { kind := .func, pre := [oGlob], post := [oBind] } ] else [])
+
+/-- the level alphabet inside a lambda / comprehension -/
+def lvExpr : List Lv :=
+  [ { kind := .lam }, { kind := .lam, ps := fun x => [{ name := x, val := 92 }] },
+    { kind := .comp, ps := compT }, { kind := .comp, ps := fun x => [{ name := x, val := 72 }] } ]
+
+/-- the innermost block: a scope that merely reads the name (or re-declares it) -/
+def lvReaders (exprCtx : Bool) (level : Nat) : List Lv :=
+  (if exprCtx then [] else
+    [ { kind := .func, pre := [oUse] }, { kind := .cls, pre := [oUse] } ] ++
+    (if level ≥ 1 then [ { kind := .func, pre := [oNonl, oUse] }, { kind := .func, pre := [oUse], post := [oUse] } ] else [])) ++
+  [ { kind := .lam, pre := [oUse] }, { kind := .comp, ps := compT, pre := [oUse] } ]
+
+/-- the extra sibling scopes -/
+def gSibs (level : Nat) : List KidF :=
+  [ kid .func noPs [oGlob], kid .func noPs [oGlob, oBind], kid .func noPs [oBind], kid .cls noPs [oGlob] ] ++
+  (if level ≥ 2 then [ kid .func noPs [oUse], kid .func noPs [oGlob] (some (kid .func noPs [oUse])),
+                       kid .func noPs [oBind] (some (kid .func noPs [oNonl, oBind])) ] else [])
+
+/-- the chain `levels` (outermost first) followed by `rest`; `sib = (depth, after?, scope)`: the extra sibling stands in the
+body that contains the block of level `depth` (0 = module), before or after it -/
+def gNest (x : Name) (sib : Option (Nat × Bool × KidF)) : List Lv → Nat → Body → Body
+  | [], _, rest => rest
+  | l :: more, idx, rest =>
+    let here : Option (Bool × KidF) := match sib with
+      | some (d, after, s) => if d + 1 == idx then some (after, s) else none
+      | none => none
+    let rest' := match here with | some (true, s) => s x (idx * 10 + 7) rest | _ => rest
+    let (postB, _) := seqOps l.post x (100 * idx + 50) .nil
+    let mid := gNest x sib more (idx + 1) postB
+    let (body, _) := seqOps l.pre x (100 * idx + 10) mid
+    let me := Body.child l.kind ((if l.kind == .cls then "C" else "f") ++ toString idx) (l.ps x) body rest'
+    match here with | some (false, s) => s x (idx * 10 + 5) me | _ => me
+
+/-- module-level patterns around the chain -/
+def gTops : List Pat := [ ⟨[], []⟩, ⟨[oBind], []⟩, ⟨[oGlob], []⟩, ⟨[oGlob, oBind], []⟩, ⟨[], [oBind]⟩ ]
+
+/-- all chains of `depth` levels (the last one a reader) × tops × sibling placements; every `stride`-th one is emitted
+(offset `off`), the others are skipped: quick samples the space the thorough tier enumerates -/
+def genGChains (x : Name) (depth : Nat) (level : Nat) (stride off : Nat) (styles : List Nat) : IO Unit := do
+  -- the chains (without the reader), as lists of levels, expression context respected
+  let rec chains : Nat → Bool → List (List Lv)
+    | 0, _ => [[]]
+    | k + 1, exprCtx =>
+      (if exprCtx then lvExpr else lvStmt level).flatMap fun l =>
+        (chains k l.isExpr).map fun c => l :: c
+  let mut ctr := 0
+  for top in gTops do
+    for c in chains (depth - 1) false do
+      let lastExpr := match c.getLast? with | some l => l.isExpr | none => false
+      for r in lvReaders lastExpr level do
+        let lv := c ++ [r]
+        -- sibling placements: none, or one sibling in the body of any statement-context level
+        let mut places : List (Option (Nat × Bool × KidF)) := [none]
+        for d in List.range depth do
+          let parentExpr := if d == 0 then false else (match lv[d - 1]? with | some l => l.isExpr | none => false)
+          if !parentExpr then
+            for s in gSibs level do
+              places := places ++ [some (d, false, s), some (d, true, s)]
+        for pl in places do
+          ctr := ctr + 1
+          if (ctr + off) % stride == 0 then
+            let (post, _) := seqOps top.post x 50 .nil
+            let b := (seqOps top.pre x 10 (gNest x pl lv 1 post)).1
+            let style := styles[(ctr / stride) % styles.length]!
+            emit (mkCase b (["gchain", "gd" ++ toString depth] ++ (if style != 0 then ["forstyle"] else [])) style)
+
 /-! ### random trees -/
 
 structure GenSt where
@@ -523,6 +621,10 @@ def genMain (tier : String) (seed : Nat) : IO Unit := do
   -- sibling families: every parent × every ordered pair / triple of child scopes
   genFamilies x (parents (if thorough then 2 else 1)) (kidAlphabet (if thorough then 2 else 1)) 2 "fam2"
   genFamilies x (parents 0) (kidAlphabet (if thorough then 1 else 0)) 3 "fam3"
+  -- outer-declaration chains: depth 2 and 3 (all in thorough; quick: all of depth 2, a seed-dependent sample of depth 3), depth 4 sampled
+  genGChains x 2 (if thorough then 2 else 1) 1 0 [0, 0, 1]
+  genGChains x 3 (if thorough then 2 else 1) (if thorough then 3 else 9) seed [0, 0, 1]
+  genGChains x 4 1 (if thorough then 37 else 601) seed [0, 1]
   -- random trees
   let n := if thorough then 150000 else 7000
   let mut g : GenSt := { r := ⟨(seed * 2654435761 + 12345).toUInt64⟩ }
